@@ -100,6 +100,10 @@ MUTANTS = [
 """, """                yield output
                 self._conclusion_.clear()
 """)]},
+    {"name": "revert_lazy_registry_class_lookup", "expect": ["C14"],
+     "edits": [("predicate.py", """        domain = From((v for a, v in yield_class_values_from_cache(Variable._cache_, symbolic_cls, from_index=False)))""",
+                """        domain = From((v for a, v in yield_class_values_from_cache(Variable._cache_, symbolic_cls, from_index=False,
+                                                                   cache_keys=cache_keys)))""")]},
     # ---------------------------------------------------------------- new mutants
     {"name": "and_does_not_restore_left_eval_parent", "expect": ["C05"],
      "edits": [(S, """                finally:
